@@ -1,3 +1,101 @@
-(* Props/C07.v — placeholder header; theorems added below once Proofs/CrashP.v is in place *)
-From AP Require Import Base.Str Gen.Tables Model.Deploy Model.Crash.
+(* Props/C07.v — Apply and rollback stay consistent under crashes and I/O errors.
+   Statements only; proofs in Proofs/CrashP.v.  [steps_of_apply f roots D pl] is the sequence of
+   mutating filesystem operations of deploy --apply in the code's order (one element per fault
+   point, including the three points inside one atomic write); [run_prefix k] performs the first k
+   of them: the world after a process abort, or an injected I/O error, at fault point k.
+   A crash is modelled at operation granularity (no torn single write, no lost rename). *)
+From AP Require Import Base.Str Gen.Tables Model.Deploy Model.Crash Proofs.DeployP Proofs.ConvergeP Proofs.CrashP.
 Open Scope N_scope.
+
+(* the complete sequence computes exactly the files of apply_plan (ties the step model to the
+   deploy model of C01-C06) *)
+Theorem C07_refines_apply : forall w roots D pl q,
+  cfiles (run (steps_of_apply (files w) roots D pl) (init_state (files w))) q =
+  files (apply_plan KDeploy w roots D pl) q.
+Proof. exact run_all_is_apply_plan. Qed.
+Print Assumptions C07_refines_apply.
+
+(* at every crash point every target-side file (deployed files and manifests) holds either its
+   complete previous or its complete new content.  Hypotheses (visible): the plan addresses no
+   path twice, roots have distinct manifests, no planned path is a root's manifest. *)
+Theorem C07_old_or_new : forall w roots D pl,
+  NoDup (map c_path pl) -> NoDup (map mf_path roots) ->
+  (forall c r, In c pl -> In r roots -> c_path c <> mf_path r) ->
+  forall k p,
+  cfiles (run_prefix k (steps_of_apply (files w) roots D pl) (init_state (files w))) p = files w p \/
+  cfiles (run_prefix k (steps_of_apply (files w) roots D pl) (init_state (files w))) p =
+    files (apply_plan KDeploy w roots D pl) p.
+Proof. intros w roots D pl H1 H2 H3 k p. exact (crash_old_or_new w roots D pl H1 H2 H3 k p). Qed.
+Print Assumptions C07_old_or_new.
+
+(* at every crash point a file whose previous content was replaced or removed has exactly that
+   content in the snapshot's backup store *)
+Theorem C07_backup_before_replace : forall w roots D pl,
+  NoDup (map c_path pl) -> NoDup (map mf_path roots) ->
+  (forall c r, In c pl -> In r roots -> c_path c <> mf_path r) ->
+  (forall c, In c pl -> c_op c = PCreate -> files w (c_path c) = None) ->
+  forall k p o, files w p = Some o ->
+  cfiles (run_prefix k (steps_of_apply (files w) roots D pl) (init_state (files w))) p <> Some o ->
+  cbackup (run_prefix k (steps_of_apply (files w) roots D pl) (init_state (files w))) p = Some o.
+Proof. intros w roots D pl H1 H2 H3 H4 k p o. exact (crash_backup_before_replace w roots D pl H1 H2 H3 H4 k p o). Qed.
+Print Assumptions C07_backup_before_replace.
+
+(* the snapshot record becomes visible only with the very last operation: everything needed to
+   roll back (all writes, all backups, the state copy of every desired file) is then on disk *)
+Theorem C07_record_last : forall f roots D pl k,
+  crecord (run_prefix k (steps_of_apply f roots D pl) (init_state f)) = true ->
+  (length (steps_of_apply f roots D pl) <= k)%nat /\
+  run_prefix k (steps_of_apply f roots D pl) (init_state f) = run (steps_of_apply f roots D pl) (init_state f).
+Proof. exact crash_record_last. Qed.
+Theorem C07_state_complete : forall D st d, In d D ->
+  In (dtarget d, dpath d, FBytes (dcontent d)) (cstatef (run (state_steps D) st)).
+Proof. exact state_steps_store. Qed.
+Print Assumptions C07_record_last.
+Print Assumptions C07_state_complete.
+
+(* re-running after a crash: the crash state is just another world, so by C05 a successful re-run
+   leaves every desired file with its rendered bytes (stated for an arbitrary world) *)
+Theorem C07_rerun_converges_partial : forall st confirmed adopt flt w roots D pl w',
+  deploy_cmd st confirmed adopt flt w roots D = (pl, (OApplied, w')) ->
+  wfD roots D -> wfM D (managed_for_plan w roots flt) ->
+  forall d, In d D -> files w' (dpath d) = Some (FBytes (dcontent d)).
+Proof.
+  intros st confirmed adopt flt w roots D pl w' H HD HM. exact (proj1 (deploy_converged _ _ _ _ _ _ _ _ _ H HD HM)).
+Qed.
+Print Assumptions C07_rerun_converges_partial.
+
+(* the full "same final state as an uninterrupted run" statement is refuted by the faithful model:
+   after a crash between the last file write and the manifest write, the re-run finds an empty plan
+   and existing (stale) manifests, takes the no-change shortcut and never rewrites the manifest *)
+Example C07_rerun_refuted :
+  let r := Build_root (s "codex") [s "h"; s "p"] true in
+  let pa := [s "h"; s "p"; s "a.md"] in let pb := [s "h"; s "p"; s "b.md"] in
+  let man := FMan (Parsed 1 (s "codex") [(s "a.md", 1)]) in
+  let f : fs := upd (upd (fun _ => None) (mf_path r) (Some man)) pa (Some (FBytes 1)) in
+  let w := Build_world f [] in
+  let D := [Build_dfile (s "codex") pa 1 []; Build_dfile (s "codex") pb 2 []] in
+  let pl := plan f D (managed_for_plan w [r] None) in
+  let steps := steps_of_apply f [r] D pl in
+  (* crash after b.md was renamed into place (7 operations), before the manifest is rewritten *)
+  let wc := Build_world (cfiles (run_prefix 7 steps (init_state f))) [] in
+  files wc pb = Some (FBytes 2) /\
+  snd (deploy_cmd SJsonYes true false None wc [r] D) = (ONoChanges, wc) /\
+  files wc (mf_path r) = Some man /\
+  files (apply_plan KDeploy w [r] D pl) (mf_path r) = Some (FMan (Parsed 1 (s "codex") [(s "a.md", 1); (s "b.md", 2)])).
+Proof. vm_compute. repeat split; reflexivity. Qed.
+
+Example C07_nonvacuous :
+  let r := Build_root (s "codex") [s "h"; s "p"] true in
+  let pa := [s "h"; s "p"; s "a.md"] in let pb := [s "h"; s "p"; s "b.md"] in let pc := [s "h"; s "p"; s "c.md"] in
+  let man := FMan (Parsed 1 (s "codex") [(s "a.md", 1); (s "c.md", 3)]) in
+  let f : fs := upd (upd (upd (fun _ => None) (mf_path r) (Some man)) pa (Some (FBytes 1))) pc (Some (FBytes 3)) in
+  let w := Build_world f [] in
+  let D := [Build_dfile (s "codex") pa 9 []; Build_dfile (s "codex") pb 2 []] in
+  let pl := plan f D (managed_for_plan w [r] None) in
+  NoDup (map c_path pl) /\ map c_op pl = [PUpdate UManaged; PCreate; PDelete] /\
+  length (steps_of_apply f [r] D pl) = 38%nat /\
+  cbackup (run_prefix 6 (steps_of_apply f [r] D pl) (init_state f)) pa = Some (FBytes 1).
+Proof.
+  cbv zeta. split; [|vm_compute; repeat split; reflexivity].
+  vm_compute. repeat constructor; simpl; intuition discriminate.
+Qed.
